@@ -197,6 +197,10 @@ def St.allReset (s : St) : Bool := s.ids.all (fun c => (s.agent c).resetReq)
 def St.setAgent (s : St) (c : Nat) (a : Agent) : St :=
   { s with agents := fun d => if d = c then some a else s.agents d }
 
+/-- pointwise update of one agent record (never creates an entry) -/
+def St.updAgent (s : St) (c : Nat) (f : Agent → Agent) : St :=
+  { s with agents := fun d => if d = c then (s.agents d).map f else s.agents d }
+
 def St.setConn (s : St) (c : Nat) (p : Phase) : St :=
   { s with conn := fun d => if d = c then p else s.conn d }
 
@@ -230,11 +234,15 @@ def rewardTask (S : Settings) (s : St) : St :=
   { s with agents := fun c => (s.agents c).map (payOne S sa) }
 
 /-- second half of `_process_game_action` for a request released from the reward barrier (or not parked at all) -/
+def obsOf (ag : Agent) : Obs :=
+  { view := ag.view, reward := ag.reward, ended := ag.ended, reason := finalReason ag.status }
+
+/-- `_add_step_to_trajectory` + the new stored observation -/
+def recordStep (a : Act) (ag : Agent) : Agent :=
+  { ag with traj := ag.traj ++ [{ act := a, reward := ag.reward, view := ag.view }], obs := obsOf ag }
+
 def finishGame (s : St) (c : Nat) (a : Act) : St × List Out :=
-  let ag := s.agent c
-  let o : Obs := { view := ag.view, reward := ag.reward, ended := ag.ended, reason := finalReason ag.status }
-  let ag' := { ag with traj := ag.traj ++ [{ act := a, reward := ag.reward, view := ag.view }], obs := o }
-  emit (s.setAgent c ag') c { code := .ok, obs := some o }
+  emit (s.updAgent c (recordStep a)) c { code := .ok, obs := some (obsOf (s.agent c)) }
 
 /-- release every request parked at the reward barrier -/
 def releaseEnd (s : St) : List Nat → St × List Out
@@ -263,12 +271,15 @@ def resetTask (S : Settings) (s : St) (o : Oracle) : St :=
 def createdReply (S : Settings) (ag : Agent) : Reply :=
   { code := .created, obs := some ag.obs, maxSteps := some (S.maxSteps ag.role) }
 
+/-- `_reset_trajectory` -/
+def restartTraj (ag : Agent) : Agent := { ag with trajInit := ag.view, traj := [] }
+
 /-- tail of `_process_reset_game_action`: answer RESET_DONE and restart the trajectory -/
 def finishReset (S : Settings) (s : St) (c : Nat) (wantTraj : Bool) : St × List Out :=
   let ag := s.agent c
   let r : Reply := { code := .resetDone, obs := some ag.obs, maxSteps := some (S.maxSteps ag.role),
                      traj := if wantTraj then some (ag.trajInit, ag.traj) else none }
-  emit (s.setAgent c { ag with trajInit := ag.view, traj := [] }) c r
+  emit (s.updAgent c restartTraj) c r
 
 /-- release the requests waiting for the start event -/
 def releaseStart (S : Settings) (s : St) : List Nat → St × List Out
@@ -316,6 +327,15 @@ def newAgent (name : String) (role : Role) (v : View) : Agent :=
     resetReq := false, reward := 0, paid := false,
     obs := { view := v, reward := 0, ended := false, reason := none }, trajInit := v, traj := [] }
 
+/-- first half of `_process_game_action` for a playing agent: counter, new view, status, step reward -/
+def playedAgent (S : Settings) (ag : Agent) (a : Act) (v' : View) (roll : Frac) : Agent :=
+  let ag1 := { ag with steps := ag.steps + 1, view := v' }
+  { ag1 with status := nextStatus S ag1 a roll, reward := S.rStep }
+
+/-- `_update_agent_episode_end`, evaluated with the acting agent's new status in place -/
+def episodeEnds (s : St) (c : Nat) (ag2 : Agent) : Bool :=
+  ag2.status.terminal || !(s.setAgent c ag2).attackerPlaying
+
 def handle (S : Settings) (s : St) (c : Nat) (m : Msg) (o : Oracle) : St × List Out :=
   match m with
   | .bad => badRequest s c
@@ -335,7 +355,7 @@ def handle (S : Settings) (s : St) (c : Nat) (m : Msg) (o : Oracle) : St × List
     (s3, .closed c :: outs)
   | .reset wantTraj =>
     if !s.inGame c then badRequest s c else
-    let s1 := s.setAgent c { s.agent c with resetReq := true }
+    let s1 := s.updAgent c (fun ag => { ag with resetReq := true })
     settle S (s1.setConn c (.parked (.resetWait wantTraj))) o false s1.allReset
   | .game a =>
     if !s.inGame c then badRequest s c else
@@ -346,11 +366,9 @@ def handle (S : Settings) (s : St) (c : Nat) (m : Msg) (o : Oracle) : St × List
       match o.stepView with
       | none => badRequest s c
       | some v' =>
-        let ag1 := { ag with steps := ag.steps + 1, view := v' }
-        let ag2 := { ag1 with status := nextStatus S ag1 a o.roll, reward := S.rStep }
-        let s1 := s.setAgent c ag2
-        let ended := ag2.status.terminal || !s1.attackerPlaying
-        let s2 := s1.setAgent c { ag2 with ended := ended }
+        let ag2 := playedAgent S ag a v' o.roll
+        let ended := episodeEnds s c ag2
+        let s2 := s.updAgent c (fun _ => { ag2 with ended := ended })
         if ended then
           settle S (s2.setConn c (.parked (.gameEnd a))) o s2.allEnded false
         else
